@@ -733,6 +733,32 @@ def run():
         n, judged, bad, outside = judge(chk, sd, allrecs, "contract")
         if n != len(allrecs):
             raise vf.NoVerdict("contract judged %d of %d records" % (n, len(allrecs)))
+        # a generated unit that fails is also observed in its plain form (standard layout, no comments, full program) when that
+        # variant is not part of this tier: the contract names the failure by the variant only if the plain form passes
+        plain = {x["base"] for x in recs if x["key"]["lay"] == "std" and x["key"]["mode"] == "none" and x["key"]["shape"] == "prog"}
+        need = []
+        for b in bad:
+            rec = allrecs[b["idx"] - 1]
+            if rec["kind"] == "gen" and rec["base"] not in plain and rec["base"] not in need:
+                need.append(rec["base"])
+        if need:
+            byid = {c["id"]: c for c in cases}
+            bu = []
+            for cid in need[:80]:
+                c = byid[cid]
+                c["vars"].append({"lay": "std", "mode": "none", "shape": "prog", "cm": []})
+                bu.append(Unit(c, len(c["vars"]) - 1))
+            vf.log("%d failing programs are observed in their plain form as well" % len(bu))
+            files1 = [SrcFile("b_%d" % k, [u], "prog", prelude) for k, u in enumerate(bu)]
+            nproc += process_files(files1, sd, ego, env, "plain")
+            for f in files1:
+                rec = unit_record(f, f.units[0])
+                rec["_src"], rec["_fmt"], rec["_shape"] = f.text, f.ftext, f.shape
+                recs.append(rec)
+            allrecs = recs + crecs
+            n, judged, bad, outside = judge(chk, sd, allrecs, "contract2")
+            if n != len(allrecs):
+                raise vf.NoVerdict("contract judged %d of %d records" % (n, len(allrecs)))
         gen_out = [o for o in outside if allrecs[o["idx"] - 1]["kind"] == "gen"]
         chk.cov["outside_domain"] = {"generated": len(gen_out), "corpus": len(outside) - len(gen_out),
                                      "examples": [o["id"] for o in outside[:12]]}
